@@ -8,6 +8,8 @@ use crate::calls::GetKind;
 use crate::crypto;
 use crate::fakenet::*;
 use crate::krpc::{self, Msg};
+use dht::verif as v;
+use dht::PutRequestSpecific;
 use crate::net::*;
 use crate::rng::Rng;
 use crate::sim::*;
@@ -260,6 +262,43 @@ fn explicit(b: u64, seed: u64) -> Value {
         "id_valid_for_ip":crypto::bep42_valid(&id_of_hex(&snap.id), ip)})
 }
 
+/// (c') peers that answered the lookup as ordinary servers answer the WRITE with replies flagged read-only (acks, or 301
+/// errors): those replies are ignored, so the put is neither reported stored nor failed with the error they carry
+fn ro_put_reply(b: u64, variant: &str, seed: u64) -> Value {
+    let mut sim = Sim::new(seed, NetCfg { lat_min_ms: 5, lat_max_ms: 5, ..Default::default() });
+    let ids: Vec<[u8; 20]> = (0..3).map(|i| crypto::sha1(&[i as u8, 19])).collect();
+    let all: Vec<([u8; 20], SocketAddrV4)> = ids.iter().enumerate().map(|(i, id)| (*id, SocketAddrV4::new(fake_ip(i), 6881))).collect();
+    let nodes = krpc::compact_nodes(&all);
+    let err = variant == "error";
+    let policy: Policy = Box::new(move |me, m, w| {
+        let q = m.q.clone().unwrap_or_default();
+        if q == "get" || q == "get_peers" {
+            return Reply::One(lookup_reply(&nodes, me, m, w, &[], true), 5);
+        }
+        if q == "put" || q == "announce_peer" {
+            let mut r = if err { krpc::error(&m.tid, 301, "CAS mismatched") } else { krpc::response(&m.tid, &me.id, B::dict(), Some(&w.from)) };
+            r.set("ro", B::Int(1));
+            return Reply::One(r, 5);
+        }
+        Reply::Default
+    });
+    let net = FakeNet::install(&mut sim, &ids, policy);
+    let c = sim.add_node(NodeOpts::client(private_ip(4), &net.bootstrap()));
+    sim.run_for(2000);
+    let sk = crypto::keypair(3);
+    let request = match variant {
+        "error" => PutRequestSpecific::PutMutable(v::PutMutableRequestArguments::from(dht::MutableItem::new(&sk, b"cas write", 4, None), Some(3))),
+        "announce" => PutRequestSpecific::AnnouncePeer(v::AnnouncePeerRequestArguments { info_hash: dht::Id::from(crypto::sha1(b"ro put")), port: 7, implied_port: None }),
+        _ => PutRequestSpecific::PutImmutable(v::PutImmutableRequestArguments { target: dht::Id::from(crypto::immutable_target(b"ro put")), v: b"ro put".to_vec().into() }),
+    };
+    let mut call = sim.call_put(c, request, None, "p");
+    sim.poke(c);
+    let done = sim.run_calls(&mut [&mut call], 60_000);
+    let writes = net.seen().iter().filter(|s| matches!(s.msg.q.as_deref(), Some("put") | Some("announce_peer"))).count();
+    let result = call.outcome().map(|o| o.name()).unwrap_or("pending".into());
+    json!({"e":"ro_put_reply","b":b,"variant":variant,"done":done,"writes_seen":writes,"result":result})
+}
+
 pub fn run(args: &Args) -> i32 {
     let seed = args.u64("seed", 1);
     let thorough = args.thorough();
@@ -274,6 +313,10 @@ pub fn run(args: &Args) -> i32 {
     b += 1;
     for i in 0..(if thorough { 10 } else { 3 }) {
         out.line(&ro_reply(b, seed ^ (i * 13)));
+        b += 1;
+    }
+    for v in ["ack", "error", "announce"] {
+        out.line(&ro_put_reply(b, v, seed ^ 0x77));
         b += 1;
     }
     for (i, v) in ["reachable", "nat", "reachable", "nat"].iter().enumerate() {
